@@ -44,7 +44,7 @@ fn apply(o: Orientation, s: Step) -> Orientation {
 
 /// panel content (physical cells) shown by a display with orientation `o` after drawing image `img`
 /// (row-major colours over the logical size of `o`)
-fn show(o: Orient, img: &dyn Fn(u32, u32) -> u32, geom: u8) -> Result<Vec<(u32, u32, u32)>, String> {
+fn show(o: Orient, img: &dyn Fn(u32, u32) -> u32, geom: u8, side: u8) -> Result<Vec<(u32, u32, u32)>, String> {
     let mut cfg = Config::full(ModelId::E7x5, Transport::Rec8);
     cfg.w = 4;
     cfg.h = 3;
@@ -54,7 +54,20 @@ fn show(o: Orient, img: &dyn Fn(u32, u32) -> u32, geom: u8) -> Result<Vec<(u32, 
     cfg.ox = ox;
     cfg.oy = oy;
     cfg.orient = o;
-    let mut s = Session::start(&cfg)?;
+    // the orientation is either given to the builder or reached at run time from another one - in a
+    // different way on the two sides of a comparison, so that an error of the run-time path cannot
+    // cancel out: "under the orientation o" does not say how o was set
+    let mut s = match (geom as usize / 9 + side as usize) % 3 {
+        0 => Session::start(&cfg)?,
+        k => {
+            let mut cfg0 = cfg.clone();
+            // a start that differs in the mirror flag only (k = 1) or in rotation and mirror flag (k = 2)
+            cfg0.orient = Orient { rot: (o.rot + if k == 1 { 0 } else { 1 }) & 3, mirrored: !o.mirrored };
+            let mut s = Session::start(&cfg0)?;
+            s.dut.set_orientation(o).map_err(|e| format!("set_orientation failed: {:?}", e))?;
+            s
+        }
+    };
     let (lw, lh) = cfg.logical_size(o);
     // the picture is put on the screen through one of the entry points (the same one on both sides of
     // a comparison, since `geom` is): pixel by pixel, as one draw_iter stream, or as one fill_contiguous
@@ -93,7 +106,7 @@ fn check_step(o: Orient, s: Step, geom: u8) -> Result<Orient, String> {
     let (w2, h2) = logical(o2);
     // image over the logical space of o2: unique colour per pixel
     let img = move |x: u32, y: u32| 1 + y * 16 + x;
-    let shown2 = show(o2, &img, geom)?;
+    let shown2 = show(o2, &img, geom, 0)?;
     // the same picture pre-transformed, drawn under o
     let (w1, h1) = logical(o);
     let pre: Box<dyn Fn(u32, u32) -> u32> = match s {
@@ -124,7 +137,7 @@ fn check_step(o: Orient, s: Step, geom: u8) -> Result<Orient, String> {
     if expect_dims != (w1, h1) {
         return Err(format!("{:?} then {:?} gives {:?}, whose logical size {:?} does not match the transformed image", o, s, o2, (w2, h2)));
     }
-    let shown1 = show(o, &*pre, geom)?;
+    let shown1 = show(o, &*pre, geom, 1)?;
     if shown1 != shown2 {
         return Err(format!(
             "{:?} extended by {:?} gives {:?}: it does not show the picture that {:?} shows for the correspondingly pre-transformed image",
@@ -136,7 +149,7 @@ fn check_step(o: Orient, s: Step, geom: u8) -> Result<Orient, String> {
 
 pub fn check(c: &WordCase, info: &mut CaseInfo) -> Result<(), String> {
     let mut o = c.start;
-    let geom = (c.word.len() + c.start.index()) as u8;
+    let geom = (c.word.len() * 5 + c.start.index() * 3 + c.word.iter().map(|s| match s { Step::Rotate(q) => *q as usize, Step::FlipH => 4, Step::FlipV => 5 }).sum::<usize>()) as u8;
     for (i, s) in c.word.iter().enumerate() {
         o = check_step(o, *s, geom.wrapping_add(i as u8))?;
     }
